@@ -83,4 +83,10 @@ CHECKS = {
         "text": "For every synthetic ITS of C01, an H-H family, every balanced corpus reaction under its renumbering variants and every stored corpus ITS: the centre's bonds are exactly the changed bonds plus H-H bonds, its atoms their end points with the ITS labels, the centre of the centre is unchanged, renumbered inputs give isomorphic centres, extract_k(k) is exactly the induced subgraph on the atoms within k bonds (own BFS), the chain centre within context(1..3) within ITS holds, and the same holds for copies, relabelled copies and edited copies of an ITS that was queried before.",
         "note": "Radii 0..3. Derived-object layer guards against state cached on graph objects.",
     },
+    "C10": {
+        "ready": True, "engine": "E1",
+        "technique": "exhaustive enumeration over a finite given set: every corpus molecule + vendored diverse molecules x re-rootings, every corpus reaction x renumbering variants x GML flag combinations; RDKit and an independent isomorphism enumerator as oracles",
+        "text": "About 600 molecules (every distinct corpus fragment plus 65 vendored charged / aromatic / hetero-aromatic / zwitterionic / cumulated ones, incl. [H+] and H2) under 3 (thorough: all) re-rootings: SMILES->graph->SMILES keeps the RDKit canonical SMILES and hydrogen total; h_to_implicit(h_to_explicit(g)) restores the graph, neither direction changes molecule or hydrogen total, inputs are not mutated. Every corpus reaction with bijective maps under its renumbering variants: centre ITS->GML->ITS is isomorphic on element, charge and (before, after) orders for all flag combinations, and the three documented routes to a GML rule agree (core and full).",
+        "note": "Finite given set (corpora + vendored list), not chemistry at large. 6 corpus reactions whose [H+] exists on one side only have no faithful rule representation and are skipped (counted in the evidence).",
+    },
 }
